@@ -31,6 +31,8 @@ import (
 	c "github.com/buzzfeed/sso/internal/zz_verif/common"
 
 	"github.com/buzzfeed/sso/internal/pkg/sessions"
+	"github.com/buzzfeed/sso/internal/proxy"
+	"github.com/datadog/datadog-go/statsd"
 )
 
 // ---------- abstract configuration document ----------
@@ -199,6 +201,10 @@ type authSrv struct {
 	groups []string
 	gerr   bool
 	paths  []string
+	// overlap: when armed, the next /redeem call signals held and waits for release
+	armed   bool
+	held    chan struct{}
+	release chan struct{}
 }
 
 func newAuthSrv() *authSrv {
@@ -207,7 +213,15 @@ func newAuthSrv() *authSrv {
 		a.mu.Lock()
 		a.paths = append(a.paths, r.URL.Path)
 		email, groups, gerr := a.email, a.groups, a.gerr
+		park := a.armed && strings.HasSuffix(r.URL.Path, "/redeem")
+		if park {
+			a.armed = false
+		}
 		a.mu.Unlock()
+		if park {
+			a.held <- struct{}{}
+			<-a.release
+		}
 		switch {
 		case strings.HasSuffix(r.URL.Path, "/redeem"):
 			io.WriteString(w, c.JSONBody(map[string]interface{}{
@@ -233,6 +247,20 @@ func (a *authSrv) script(email string, groups []string, gerr bool) {
 	a.mu.Unlock()
 }
 
+// arm parks the next redeem call: the callback that makes it stays between "code received" and
+// "session issued" until release is closed.
+func (a *authSrv) arm() {
+	a.mu.Lock()
+	a.armed, a.held, a.release = true, make(chan struct{}, 1), make(chan struct{})
+	a.mu.Unlock()
+}
+
+func (a *authSrv) disarm() {
+	a.mu.Lock()
+	a.armed = false
+	a.mu.Unlock()
+}
+
 func (a *authSrv) take() []string {
 	a.mu.Lock()
 	defer a.mu.Unlock()
@@ -245,6 +273,8 @@ type world struct {
 	backends []*c.Backend
 	auth     *authSrv
 	dir      string
+	statsd   *statsd.Client
+	wire     map[string]string
 }
 
 func (w *world) drain() {
@@ -264,13 +294,45 @@ func newReq(host, target string) *http.Request {
 	return req
 }
 
+// wireForm asks net/http itself (no sso code involved) which Host header a client sends for a
+// request whose Host field is h. Only non-ASCII hosts are measured; everything else is sent verbatim
+// or is covered by the model (empty Host).
+func (w *world) wireForm(h string) (string, bool) {
+	ascii := true
+	for i := 0; i < len(h); i++ {
+		if h[i] >= 0x80 {
+			ascii = false
+		}
+	}
+	if ascii {
+		return h, false
+	}
+	if wf, ok := w.wire[h]; ok {
+		return wf, wf != ""
+	}
+	b := w.backends[0]
+	b.Take()
+	req, err := http.NewRequest("GET", b.Srv.URL+"/wire-form", nil)
+	c.Must(err)
+	req.Host = h
+	wf := ""
+	if resp, err := http.DefaultClient.Do(req); err == nil {
+		resp.Body.Close()
+		if seen := b.Take(); len(seen) == 1 {
+			wf = seen[0].Host
+		}
+	}
+	w.wire[h] = wf
+	return wf, wf != ""
+}
+
 func firstSegment(p string) string {
 	parts := strings.Split(strings.TrimPrefix(p, "/"), "/")
 	return parts[0]
 }
 
 // observe classifies what one exchange did.
-func (w *world) observe(pw *c.ProxyWorld, rec *httptest.ResponseRecorder, path string, isLogin bool) obs {
+func (w *world) observe(pw *c.ProxyWorld, rec *httptest.ResponseRecorder, path string, isLogin bool, earlier ...string) obs {
 	o := obs{Kind: 9, Cookie: "none", Status: rec.Code}
 	reached := 0
 	for i, b := range w.backends {
@@ -296,7 +358,7 @@ func (w *world) observe(pw *c.ProxyWorld, rec *httptest.ResponseRecorder, path s
 			o.Set = &sess{Slug: s.ProviderSlug, Upstream: s.AuthorizedUpstream, Email: s.Email}
 		}
 	}
-	authPaths := w.auth.take()
+	authPaths := append(append([]string{}, earlier...), w.auth.take()...)
 	authURL, _ := url.Parse(w.auth.srv.URL)
 	switch {
 	case reached > 1:
@@ -344,6 +406,9 @@ type cref struct {
 
 type event struct {
 	Login  bool     `json:"login"`
+	Start  string   `json:"flow_opened_on_host,omitempty"`
+	SPath  string   `json:"flow_opened_by_path,omitempty"`
+	Over   bool     `json:"ran_concurrently_with_previous_listed_event,omitempty"`
 	Host   string   `json:"host"`
 	Path   string   `json:"path,omitempty"`
 	Cookie *cref    `json:"cookie,omitempty"`
@@ -359,7 +424,8 @@ func (e event) coq() string {
 		if !e.GErr {
 			ans = "(GroupsOk " + c.Strs(e.Groups) + ")"
 		}
-		return fmt.Sprintf("XLogin {| l_host := %s; l_email := %s; l_groups := %s |} %s", c.Str(e.Host), c.Str(e.Email), ans, e.Obs.coq())
+		return fmt.Sprintf("XLogin {| l_start := %s; l_spath := %s; l_host := %s; l_email := %s; l_groups := %s |} %s",
+			c.Str(e.Start), c.Str(e.SPath), c.Str(e.Host), c.Str(e.Email), ans, e.Obs.coq())
 	}
 	cr := "RefNone"
 	switch e.Cookie.Kind {
@@ -374,6 +440,9 @@ func (e event) coq() string {
 // plan is an event before it is run
 type plan struct {
 	Login  bool
+	Start  *string // login: host the sign-in is opened on (nil = the callback's host)
+	SPath  string  // login: path asked for when the sign-in is opened (default startPath)
+	Park   bool    // login: park the callback inside its redeem call while the NEXT plan (a request) runs
 	Host   string
 	Path   string
 	Cookie cref
@@ -384,80 +453,138 @@ type plan struct {
 
 const startPath = "/start-login"
 
-func (w *world) runCase(d doc, plans []plan) c.Case {
-	pw, err := c.BuildProxy(c.ProxyOpts{YAML: d.yaml(), Valid: time.Hour, DefaultSlug: d.Default, Dir: w.dir},
+// doRequest runs one request plan to completion and observes it.
+func (w *world) doRequest(pw *c.ProxyWorld, p plan, issued []string) event {
+	w.drain()
+	w.auth.take()
+	req := newReq(p.Host, p.Path)
+	switch p.Cookie.Kind {
+	case "issued":
+		if p.Cookie.J < len(issued) && issued[p.Cookie.J] != "" {
+			req.AddCookie(&http.Cookie{Name: pw.CookieName, Value: issued[p.Cookie.J]})
+		}
+	case "minted":
+		m := p.Cookie.Minted
+		far := time.Now().Add(10 * time.Hour)
+		s := &sessions.SessionState{ProviderSlug: m.Slug, ProviderType: "sso", AccessToken: "at", RefreshToken: "rt",
+			RefreshDeadline: far, LifetimeDeadline: far, ValidDeadline: far,
+			Email: m.Email, User: strings.Split(m.Email, "@")[0], AuthorizedUpstream: m.Upstream}
+		req.AddCookie(&http.Cookie{Name: pw.CookieName, Value: pw.Seal(s)})
+	}
+	rec := pw.Do(req)
+	cr := p.Cookie
+	return event{Host: p.Host, Path: p.Path, Cookie: &cr, Obs: w.observe(pw, rec, p.Path, false)}
+}
+
+// runCase boots the real proxy from the document (struct fields or, viaEnv, the way cmd/sso-proxy
+// does: environment + LoadConfig + Validate), wraps it in the logging handler the binary installs,
+// and plays the history. nil when the code under test does not boot (recorded with SetupFailed).
+func (w *world) runCase(d doc, plans []plan, viaEnv bool) *c.Case {
+	pw, err := c.BuildProxy(c.ProxyOpts{YAML: d.yaml(), Valid: time.Hour, DefaultSlug: d.Default, Dir: w.dir, ViaEnv: viaEnv},
 		&c.FakeAuth{Srv: w.auth.srv})
 	if err != nil {
-		c.Must(fmt.Errorf("proxy does not build for generated document: %v\n%s", err, d.yaml()))
+		c.SetupFailed("the proxy does not boot from a valid generated document (viaEnv=%v): %v\n%s", viaEnv, err, d.yaml())
+		return nil
 	}
+	pw.Handler = proxy.NewLoggingHandler(io.Discard, pw.Handler, proxy.LoggingConfig{Enable: true}, w.statsd)
 	var issued []string // per login event: the raw cookie value the proxy issued ("" when refused)
 	var evs []event
-	for _, p := range plans {
-		w.drain()
-		w.auth.take()
-		if p.Login {
-			w.auth.script(p.Email, p.Groups, p.GErr)
-			// start a flow on this host to obtain a genuine state and CSRF cookie
-			rec := pw.Do(newReq(p.Host, startPath))
-			state, csrf := "none", ""
-			if loc, err := url.Parse(rec.Header().Get("Location")); err == nil && loc.Query().Get("state") != "" {
-				state = loc.Query().Get("state")
-			}
-			for _, ck := range rec.Result().Cookies() {
-				if ck.Name == pw.CookieName+"_csrf" {
-					csrf = ck.Value
-				}
-			}
-			w.drain()
-			w.auth.take()
-			cb := newReq(p.Host, "/oauth2/callback?code=abc&state="+url.QueryEscape(state))
-			if csrf != "" {
-				cb.AddCookie(&http.Cookie{Name: pw.CookieName + "_csrf", Value: csrf})
-			}
-			rec = pw.Do(cb)
-			o := w.observe(pw, rec, "/oauth2/callback", true)
-			raw := ""
-			if o.Kind == 5 {
-				_, raw = c.CookieEffect(rec, pw.CookieName)
-			}
-			issued = append(issued, raw)
-			g := p.Groups
-			if g == nil {
-				g = []string{}
-			}
-			evs = append(evs, event{Login: true, Host: p.Host, Email: p.Email, Groups: g, GErr: p.GErr, Obs: o})
+	for i := 0; i < len(plans); i++ {
+		p := plans[i]
+		if !p.Login {
+			evs = append(evs, w.doRequest(pw, p, issued))
 			continue
 		}
-		req := newReq(p.Host, p.Path)
-		switch p.Cookie.Kind {
-		case "issued":
-			if p.Cookie.J < len(issued) && issued[p.Cookie.J] != "" {
-				req.AddCookie(&http.Cookie{Name: pw.CookieName, Value: issued[p.Cookie.J]})
-			}
-		case "minted":
-			m := p.Cookie.Minted
-			far := time.Now().Add(10 * time.Hour)
-			s := &sessions.SessionState{ProviderSlug: m.Slug, ProviderType: "sso", AccessToken: "at", RefreshToken: "rt",
-				RefreshDeadline: far, LifetimeDeadline: far, ValidDeadline: far,
-				Email: m.Email, User: strings.Split(m.Email, "@")[0], AuthorizedUpstream: m.Upstream}
-			req.AddCookie(&http.Cookie{Name: pw.CookieName, Value: pw.Seal(s)})
+		w.drain()
+		w.auth.take()
+		start, spath := p.Host, p.SPath
+		if p.Start != nil {
+			start = *p.Start
 		}
-		rec := pw.Do(req)
-		cr := p.Cookie
-		evs = append(evs, event{Host: p.Host, Path: p.Path, Cookie: &cr, Obs: w.observe(pw, rec, p.Path, false)})
+		if spath == "" {
+			spath = startPath
+		}
+		w.auth.script(p.Email, p.Groups, p.GErr)
+		// open a sign-in on the start host to obtain a genuine flow record and CSRF cookie
+		rec := pw.Do(newReq(start, spath))
+		state, csrf := "none", ""
+		if loc, err := url.Parse(rec.Header().Get("Location")); err == nil && loc.Query().Get("state") != "" {
+			state = loc.Query().Get("state")
+		}
+		for _, ck := range rec.Result().Cookies() {
+			if ck.Name == pw.CookieName+"_csrf" {
+				csrf = ck.Value
+			}
+		}
+		w.drain()
+		w.auth.take()
+		// ... and deliver the callback to p.Host (the same host, or another one)
+		cb := newReq(p.Host, "/oauth2/callback?code=abc&state="+url.QueryEscape(state))
+		if csrf != "" {
+			cb.AddCookie(&http.Cookie{Name: pw.CookieName + "_csrf", Value: csrf})
+		}
+		var o obs
+		var overlapped *event
+		if p.Park && i+1 < len(plans) && !plans[i+1].Login {
+			// overlapping requests: the callback is parked inside its redeem call while the next
+			// request runs to completion; both are judged separately
+			w.auth.arm()
+			done := make(chan *httptest.ResponseRecorder, 1)
+			go func() { done <- pw.Do(cb) }()
+			select {
+			case <-w.auth.held:
+				early := w.auth.take()
+				ev := w.doRequest(pw, plans[i+1], issued)
+				overlapped = &ev
+				i++
+				close(w.auth.release)
+				rec = <-done
+				o = w.observe(pw, rec, "/oauth2/callback", true, early...)
+			case rec = <-done: // the callback never asked the authenticator (unrouted host): nothing to overlap
+				w.auth.disarm()
+				o = w.observe(pw, rec, "/oauth2/callback", true)
+			case <-time.After(30 * time.Second):
+				c.SetupFailed("callback on %q neither finished nor asked the authenticator within 30 s", p.Host)
+				w.auth.disarm()
+				rec = <-done
+				o = w.observe(pw, rec, "/oauth2/callback", true)
+			}
+		} else {
+			rec = pw.Do(cb)
+			o = w.observe(pw, rec, "/oauth2/callback", true)
+		}
+		raw := ""
+		if o.Kind == 5 {
+			_, raw = c.CookieEffect(rec, pw.CookieName)
+		}
+		g := p.Groups
+		if g == nil {
+			g = []string{}
+		}
+		if overlapped != nil { // completion order: the overlapped request finished first
+			evs = append(evs, *overlapped)
+		}
+		issued = append(issued, raw)
+		evs = append(evs, event{Login: true, Start: start, SPath: spath, Over: overlapped != nil, Host: p.Host, Email: p.Email, Groups: g, GErr: p.GErr, Obs: o})
 	}
 
 	// oracle tables computed by Go's regexp, independently of the proxy
 	hosts, paths := []string{}, []string{}
 	seenH, seenP := map[string]bool{}, map[string]bool{}
 	for _, e := range evs {
-		if !seenH[e.Host] {
-			seenH[e.Host] = true
-			hosts = append(hosts, e.Host)
+		for _, h := range []string{e.Host, e.Start} {
+			if (h == e.Host || e.Login) && !seenH[h] {
+				seenH[h] = true
+				hosts = append(hosts, h)
+			}
 		}
-		if !e.Login && !seenP[e.Path] {
-			seenP[e.Path] = true
-			paths = append(paths, e.Path)
+		pth := e.Path
+		if e.Login {
+			pth = e.SPath
+		}
+		if !seenP[pth] {
+			seenP[pth] = true
+			paths = append(paths, pth)
 		}
 	}
 	var mt, rt []string
@@ -493,6 +620,13 @@ func (w *world) runCase(d doc, plans []plan) c.Case {
 	for i, b := range w.backends {
 		bs = append(bs, fmt.Sprintf("(%s,%d)", c.Str(b.HostPort()), i))
 	}
+	// net/http oracle: the wire form of a non-ASCII Host, measured with a plain http.Client
+	var wt []string
+	for _, h := range hosts {
+		if wf, ok := w.wireForm(h); ok && wf != h {
+			wt = append(wt, fmt.Sprintf("(%s,%s)", c.Str(h), c.Str(wf)))
+		}
+	}
 	svcs := make([]string, len(d.Svcs))
 	for i, s := range d.Svcs {
 		svcs[i] = coqSvc(s)
@@ -501,9 +635,10 @@ func (w *world) runCase(d doc, plans []plan) c.Case {
 	for i, e := range evs {
 		xs[i] = e.coq()
 	}
-	coq := fmt.Sprintf("CHist %s\n %s\n %s\n %s\n %s\n %s", c.Str(d.Default), c.List(svcs), c.List(mt), c.List(rt), c.List(bs),
+	coq := fmt.Sprintf("CHist %s\n %s\n %s\n %s\n %s\n %s", c.Str(d.Default), c.List(svcs), c.List(mt), c.List(rt),
+		"{| w_wire := "+c.List(wt)+"; w_backends := "+c.List(bs)+" |}",
 		"["+strings.Join(xs, ";\n  ")+"]")
-	return c.Case{Coq: coq, JSON: map[string]interface{}{"document": d, "events": evs}}
+	return &c.Case{Coq: coq, JSON: map[string]interface{}{"document": d, "boot_via_env": viaEnv, "time_local": time.Local.String(), "events": evs}}
 }
 
 // ---------- generators ----------
@@ -615,6 +750,12 @@ func (w *world) hostPool(r *c.Rng, d doc) []string {
 	if r.Chance(0.05) {
 		pool = append(pool, "")
 	}
+	if r.Chance(0.3) { // internationalised, punycode, very long, IPv6-literal and dotted variants
+		pool = append(pool, "m\xc3\xbcnchen.rw.test", "xn--mnchen-3ya.rw.test", strings.Repeat("a", 300)+".rw.test",
+			"[::1]:8080", "a.test..", ".a.test", "a.test:", "a.test:080")
+		// (hosts stay valid UTF-8: the session codec is JSON, which rewrites invalid bytes to U+FFFD, so a
+		// session bound to such a Host is never accepted again — fail-closed, outside the property)
+	}
 	n := 4 + r.Intn(4)
 	var hosts []string
 	seen := map[string]bool{}
@@ -640,6 +781,14 @@ func (w *world) genPlans(r *c.Rng, d doc) []plan {
 		if r.Chance(0.6) {
 			p.Groups = []string{r.Pick([]string{"g1", "g2", "other"})}
 		}
+		if r.Chance(0.4) { // sign-in opened on one host, callback delivered to another
+			h := r.Pick(hosts)
+			p.Start = &h
+		}
+		if r.Chance(0.08) { // opened by a request that is not answered by a sign-in redirect: no flow record
+			p.SPath = r.Pick([]string{"/public/start.css", "/api/health", "/ping"})
+		}
+		p.Park = j == nLogins-1 && r.Chance(0.5) // the next plan is a replay of the first issued cookie
 		plans = append(plans, p)
 	}
 	// every issued cookie on every host
@@ -669,7 +818,12 @@ func (w *world) genPlans(r *c.Rng, d doc) []plan {
 	// a late login and its replay, after requests have been made
 	if r.Chance(0.3) {
 		h := r.Pick(hosts)
-		plans = append(plans, plan{Login: true, Host: h, Email: "bob@a.com", Groups: []string{"g1"}})
+		late := plan{Login: true, Host: h, Email: "bob@a.com", Groups: []string{"g1"}, Park: r.Chance(0.5)}
+		if r.Chance(0.5) {
+			h0 := r.Pick(hosts)
+			late.Start = &h0
+		}
+		plans = append(plans, late)
 		for _, h2 := range hosts {
 			plans = append(plans, plan{Host: h2, Path: "/page", Cookie: cref{Kind: "issued", J: nLogins}})
 		}
@@ -757,8 +911,34 @@ func (w *world) corpus() []struct {
 		{Host: "a.test", Path: "/page", Cookie: cref{Kind: "minted", Minted: &sess{Slug: "google", Upstream: "a.test", Email: "bob@a.com"}}},
 		{Host: "a.test", Path: "/page", Cookie: cref{Kind: "minted", Minted: &sess{Slug: "google", Upstream: "", Email: "bob@a.com"}}},
 	})
+	// a sign-in opened on a group-restricted host and closed by a callback on a permissive host (and
+	// the other way round): the session belongs to the callback's host and is accepted nowhere else
+	admin, open := "admin.sso.test", "open.sso.test"
+	add(doc{Default: "google", Svcs: []svcSpec{
+		{Name: "admin", Up: upSpec{Route: routeSpec{From: admin, To: b0}, Groups: []string{"admins"}}},
+		{Name: "open", Up: upSpec{Route: routeSpec{From: open, To: b1}, Doms: dom("a.com")}},
+		{Name: "rw", Up: upSpec{Route: routeSpec{Rewrite: true, From: `^(.*)\.rw\.test$`, To: b2}, Doms: dom("a.com"), Skip: []string{"^/public/"}}},
+	}}, []plan{
+		{Login: true, Start: &admin, SPath: "/secret", Host: open, Email: "bob@a.com", Groups: []string{"staff"}},
+		{Host: admin, Path: "/secret", Cookie: cref{Kind: "issued", J: 0}},
+		{Host: open, Path: "/page", Cookie: cref{Kind: "issued", J: 0}},
+		{Login: true, Start: &open, Host: admin, Email: "bob@a.com", Groups: []string{"staff"}},
+		{Login: true, Start: &open, Host: admin, Email: "bob@a.com", Groups: []string{"admins"}, Park: true},
+		{Host: open, Path: "/page", Cookie: cref{Kind: "issued", J: 0}},
+		{Host: open, Path: "/page", Cookie: cref{Kind: "issued", J: 2}},
+		{Host: admin, Path: "/page", Cookie: cref{Kind: "issued", J: 2}},
+		{Login: true, Start: strp("x.rw.test"), Host: "y.rw.test", Email: "bob@a.com"},
+		{Host: "x.rw.test", Path: "/page", Cookie: cref{Kind: "issued", J: 3}},
+		{Host: "y.rw.test", Path: "/page", Cookie: cref{Kind: "issued", J: 3}},
+		{Login: true, Start: strp("x.rw.test"), SPath: "/public/index", Host: "y.rw.test", Email: "bob@a.com"},
+		{Login: true, Start: strp("nomatch.example"), Host: open, Email: "bob@a.com"},
+		{Login: true, Start: &open, SPath: "/ping", Host: open, Email: "bob@a.com"},
+		{Login: true, Start: &open, Host: "nomatch.example", Email: "bob@a.com"},
+	})
 	return out
 }
+
+func strp(s string) *string { return &s }
 
 func main() {
 	a := c.ParseArgs()
@@ -774,7 +954,9 @@ func main() {
 	r := c.NewRng(a.Seed)
 	dir := c.Scratch(a.Out)
 	defer os.RemoveAll(dir)
-	w := &world{auth: newAuthSrv(), dir: dir}
+	sc, err := statsd.New("127.0.0.1:8125")
+	c.Must(err)
+	w := &world{auth: newAuthSrv(), dir: dir, statsd: sc, wire: map[string]string{}}
 	defer w.auth.srv.Close()
 	for i := 0; i < 6; i++ {
 		b := c.NewBackend("b" + c.Itoa(i))
@@ -783,15 +965,36 @@ func main() {
 	}
 	var cases []c.Case
 	events := 0
-	for _, k := range w.corpus() {
-		cases = append(cases, w.runCase(k.d, k.p))
-		events += len(k.p)
+	add := func(d doc, p []plan, viaEnv bool) {
+		if k := w.runCase(d, p, viaEnv); k != nil {
+			cases = append(cases, *k)
+			events += len(p)
+		}
+	}
+	// half of the histories run with the process's local time zone east of UTC: sealed deadlines and
+	// everything derived from them must mean the same instants
+	zones := []*time.Location{time.UTC, time.FixedZone("east", 9*3600+1800)}
+	for i, k := range w.corpus() {
+		time.Local = zones[i%2]
+		add(k.d, k.p, false)
+		if i >= 4 {
+			add(k.d, k.p, true)
+		}
 	}
 	for i := 0; i < a.N; i++ {
+		time.Local = zones[i%2]
 		d := w.genDoc(r)
 		p := w.genPlans(r, d)
-		cases = append(cases, w.runCase(d, p))
-		events += len(p)
+		viaEnv := i%3 == 0 // boot like cmd/sso-proxy: environment + LoadConfig + Validate + SetUpstreamConfigs + New
+		add(d, p, viaEnv)
+		// the same deployment with its services declared in the opposite order: every upstream is checked again
+		if len(d.Svcs) > 1 && r.Chance(0.15) {
+			rev := doc{Default: d.Default}
+			for j := len(d.Svcs) - 1; j >= 0; j-- {
+				rev.Svcs = append(rev.Svcs, d.Svcs[j])
+			}
+			add(rev, p, !viaEnv)
+		}
 	}
 	c.Must(c.WriteShards(a.Out, "Corr_C13", cases, a.Shard))
 	fmt.Printf("cases=%d events=%d\n", len(cases), events)
